@@ -73,6 +73,11 @@ func c07Pool(thorough bool) []c07Def {
 			/*12*/ c07Def{name: "f7", src: "let f7 (u:U) (rs:[]R) =\n  let g = fun (v:U) ->\n            match v with\n            | I i -> i\n            | _ -> 0\n  let hs = sl.Map _.B rs\n  (g u, hs)\n", deps: []int{0, 1, 2}, owns: exact("f7")},
 			/*13*/ c07Def{name: "mkg", src: "let mkg (x:int) =\n  {V=x; Vs=[x]}\n", deps: []int{10}, owns: exact("mkg")},
 			/*14*/ c07Def{name: "getv", src: "let getv (g:G<int>) =\n  g.V\n", deps: []int{10}, owns: exact("getv")},
+			// binders that reuse top-level names, and top-level variables whose initialiser opens scopes
+			/*16*/ c07Def{name: "tvm", src: "let tvm = match (S \"q\") with\n          | S gv -> gv\n          | _ -> \"n\"\n", deps: []int{1}, owns: exact("tvm")},
+			/*17*/ c07Def{name: "usegv", src: "let usegv () =\n  (gv, [gv])\n", deps: []int{3}, owns: exact("usegv")},
+			/*18*/ c07Def{name: "tvl", src: "let tvl = fun (gv:string) (idf:string) -> gv + idf\n", owns: exact("tvl")},
+			/*19*/ c07Def{name: "shadow1", src: "let shadow1 (idf:int) (mk:int) =\n  let gv = idf + mk\n  gv * 2\n", owns: exact("shadow1")},
 			/*15*/ c07Def{name: "mkgs", src: "let mkgs (s:string) =\n  let g = {V=s; Vs=[s; s]}\n  g.Vs\n", deps: []int{10}, owns: exact("mkgs")},
 		)
 	}
